@@ -117,6 +117,45 @@ def _restrict(t: "T", ckey: str, val: bool) -> "T":
     return T(t.op, t.name, [_restrict(a, ckey, val) for a in t.args], {k: _restrict(v, ckey, val) for k, v in t.kw.items()}, t.node)
 
 
+def _loop_as_comprehension(alts):
+    """phi(empty, acc(empty, ...))  /  phi(empty, ifexp(c, acc(empty, ...), empty))  ->  comp / dictcomp, or None"""
+    def empty(x):
+        return (x.op in ("list", "dict") and not x.args) or (x.op == "call" and x.name in ("list", "dict") and not x.args and not x.kw)
+    e = next((a for a in alts if empty(a)), None)
+    o = next((a for a in alts if a is not e), None)
+    if e is None or o is None:
+        return None
+    cond = None
+    if o.op == "ifexp" and empty(o.args[2]) and o.args[1].op in ("listacc", "dictacc"):
+        cond, o = o.args[0], o.args[1]
+    elif o.op == "ifexp" and empty(o.args[1]) and o.args[2].op in ("listacc", "dictacc"):
+        cond, o = T("not", None, [o.args[0]]), o.args[2]
+    if o.op == "listacc" and o.name == "append" and len(o.args) == 2 and empty(o.args[0]) and e.op in ("list", "call"):
+        parts = [o.args[1]]
+    elif o.op == "dictacc" and len(o.args) == 3 and empty(o.args[0]):
+        parts = [o.args[1], o.args[2]]
+    else:
+        return None
+    # the loop's iterable: the one sequence whose element the parts (and the condition) are computed from
+    inner_iters = set()
+    for p_ in parts + ([cond] if cond is not None else []):
+        for x in p_.walk():
+            if x.op in ("comp", "dictcomp"):
+                inner_iters.add((x.args[1] if x.op == "comp" else x.args[2]).key())
+    its = {}
+    for p_ in parts + ([cond] if cond is not None else []):
+        for x in p_.walk():
+            if x.op == "elem" and x.args and x.args[0].key() not in inner_iters:
+                its.setdefault(x.args[0].key(), x.args[0])
+    # elements of a zip / enumerate / items() of the same sequence are elements of ONE loop
+    if len(its) != 1:
+        return None
+    X = next(iter(its.values()))
+    if o.op == "listacc":
+        return T("comp", None, [parts[0], X] + ([cond] if cond is not None else []), node=o.node)
+    return T("dictcomp", None, [parts[0], parts[1], X] + ([cond] if cond is not None else []), node=o.node)
+
+
 def fuse_comprehensions(t: "T") -> "T":
     """each(comp(E, iter)) == E : an element of `[E for x in iter]` is E at that x (the comprehension variable is already
     the term each(iter) inside E).  Only for comprehensions without conditions."""
@@ -130,6 +169,12 @@ def fuse_comprehensions(t: "T") -> "T":
         for a in args:
             flat += list(a.args[0].args) if (a.op == "star" and a.args[0].op in ("list", "tuple")) else [a]
         args = flat
+    # a container filled in a loop is the comprehension:  acc = []; for x in X: (if c:) acc.append(E)   ==   [E for x in X (if c)]
+    #                                                     acc = {}; for x in X: (if c:) acc[K] = V       ==   {K: V for x in X (if c)}
+    if t.op == "phi" and len(args) == 2:
+        r_ = _loop_as_comprehension(args)
+        if r_ is not None:
+            return r_
     # a comprehension over a LITERAL sequence is the literal list of its instances:  [f(x) for x in (a, b)] == [f(a), f(b)]
     if t.op == "comp" and len(args) == 2 and args[1].op in ("list", "tuple") and \
             not any(a.op == "star" for a in args[1].args):
@@ -486,6 +531,15 @@ class Expander:
             self._record_names(t.slice, env)
             self.stores.append(Store("sub", self._tr(t.value), self._tr(t.slice), val, t, self._cur_stmt,
                                      tuple(self.guard_stack)))
+            # a LOCAL dictionary that starts empty and is filled key by key keeps what was put into it (like a list filled with
+            # append): dictacc(dict, key, value) -- `d = {}; for k in K: d[k] = V` is the comprehension {k: V for k in K}
+            if isinstance(t.value, ast.Name) and t.value.id in env and not isinstance(t.slice, ast.Slice):
+                old = env[t.value.id]
+                fresh = lambda x: (x.op == "dict" and not x.args) or (x.op == "call" and x.name == "dict" and not x.args and not x.kw)
+                dicty = fresh(old) or old.op == "dictacc" or (old.op in ("phi", "ifexp") and T.find(old, lambda x: x.op == "dictacc" or fresh(x)) is not None
+                                                              and T.find(old, lambda x: x.op == "param") is None)
+                if dicty:
+                    env[t.value.id] = T("dictacc", None, [old, self._tr(t.slice), val], node=t)
 
     def _stmt(self, st, env):
         self._cur_stmt = st
